@@ -98,6 +98,8 @@ class Model(HoloPyObject):
     def _iteritems(self):
         keys = ['_dummy_scatterer', 'theory', '_parameters',
                 '_parameter_names', '_maps']
+        if len(self.constraints) > 0:
+            keys.append('constraints')
         for key in keys:
             item = getattr(self, key)
             if isinstance(item, np.ndarray) and item.ndim == 1:
@@ -120,6 +122,8 @@ class Model(HoloPyObject):
         kwargs = {'scatterer': scatterer, 'theory': theory}
         for key in ['optics', 'model']:
             kwargs.update(read_map(maps[key], parameters))
+        if 'constraints' in fields:
+            kwargs['constraints'] = fields['constraints']
         model = cls(**kwargs)
         if model._parameters == parameters:
             model._parameter_names = fields['_parameter_names']
